@@ -1,5 +1,6 @@
 #include "run.h"
 #include "pki.h"
+#include <algorithm>
 
 namespace xs {
 
@@ -74,11 +75,13 @@ void check_conservation(const char *when) {
     if (!all_closed) { G->note("conservation check skipped (%s): not every socket was closed", when); return; }
     int nfd = K->lib_fd_count(1);
     if (nfd != 0) G->violation("C08.leak_fd", "%d library-created descriptor(s) still open after every socket was closed: %s", nfd, K->fd_dump(1).c_str());
-    if (!K->live_allocs.empty()) {
+    if (!K->allocs.empty()) {
+        std::vector<size_t> sz;
+        for (auto &kv : K->allocs) sz.push_back(kv.second);
+        std::sort(sz.begin(), sz.end());
         std::string sizes;
-        int n = 0;
-        for (auto &kv : K->alloc_size) { if (n++ < 8) sizes += strf("%zu ", kv.second); }
-        G->violation("C08.leak_mem", "%zu heap block(s) (%zu bytes) allocated by library code still live after every socket was closed; sizes: %s", K->live_allocs.size(), K->live_bytes, sizes.c_str());
+        for (size_t i = 0; i < sz.size() && i < 8; i++) sizes += strf("%zu ", sz[i]);
+        G->violation("C08.leak_mem", "%zu heap block(s) (%zu bytes) allocated by library code still live after every socket was closed; sizes: %s", K->allocs.size(), K->live_bytes, sizes.c_str());
     }
     if (K->ssl_ctx_balance != 0) G->violation("C08.leak_ssl_ctx", "SSL_CTX_new/SSL_CTX_free balance is %lld after every socket was closed", (long long)K->ssl_ctx_balance);
     if (K->ssl_balance != 0) G->violation("C08.leak_ssl", "SSL_new/SSL_free balance is %lld after every socket was closed", (long long)K->ssl_balance);
@@ -129,6 +132,10 @@ Result run_plan(const Plan &plan, bool verbose) {
     kern.fail_rescall_at2 = plan.P("fail_rescall_at2", -1);
     kern.fail_rescall_errno2 = (int)plan.P("fail_rescall_errno2", 0);
     kern.record_calls = plan.P("record_calls", 0) != 0;
+    kern.cut_dir = (int)plan.P("cut_dir", -1);
+    kern.cut_at = plan.P("cut_at", -1);
+    kern.cut_mode = (int)plan.P("cut_mode", 0);
+    kern.cut_conn = (int)plan.P("cut_conn", 0);
     kern.hosts["10.0.0.1"] = Host{HostKind::LOCAL, -1};
     kern.hosts["10.0.0.2"] = Host{HostKind::LOCAL, -1};
     kern.hosts["fd00::1"] = Host{HostKind::LOCAL, -1};
@@ -165,6 +172,7 @@ Result run_plan(const Plan &plan, bool verbose) {
     for (auto &kv : sim.stat) res.stat[kv.first] += kv.second;
     res.stat["peak_xcm_heap"] = (int64_t)kern.peak_bytes;
     res.notes = sim.notes;
+    if (kern.record_calls) res.calls = kern.callrec;
     if (res.stat.count("must_exit")) {
         // leave G/K alive: stuck threads still reference them; caller exits the process
         return res;
